@@ -18,6 +18,7 @@ pub mod c11;
 pub mod c12;
 pub mod c13;
 pub mod c15;
+pub mod c16;
 pub mod c18;
 
 pub struct StageOut {
@@ -51,6 +52,7 @@ pub fn dispatch(ctx: &Ctx) -> StageOut {
         "c13" => c13::run(ctx),
         "c13f4" => c13::run_f4(ctx),
         "c15" => c15::run(ctx),
+        "c16" => c16::run(ctx),
         "c18" => c18::run(ctx),
         "advgen" => c18::run_advgen(ctx),
         "c12os" => c12::run_os_calls(ctx),
